@@ -1,15 +1,25 @@
 """C05 - vnadata_convert applies the right conversion with the right impedances.
 
 1. T2 (translate/convtable.py) regenerates coq/Gen/ConvTableGen.v from vnadata_convert.c / vnaconv.h;
-   Data/ConvertProofs.v and Properties_C05.v are re-proved (table_sound over all 121 pairs by
-   vm_compute + forallb_forall, arity against the prototypes, rejection, in-place pointwise).
+   Data/ConvertProofs.v, Data/ConvertRefine.v, Data/ConvertTheorems.v, Data/ConvertExamples.v and
+   Properties_C05.v are re-proved (table_sound over all 121 pairs by vm_compute + forallb_forall,
+   arity against the prototypes, rejection, refinement of every accepted conversion - copy, matrix
+   to matrix, matrix to Zin, in place and into any second object - to the array specification,
+   in-place = out-of-place, machine invariant, concrete examples).
 2. T2 is validated exhaustively against the compiled table (harness/convtable_harness.c includes
    vnadata_convert.c and resolves the selected function pointers to names).
 3. Correspondence: conversion-centred op scripts (every type pair x in-place / out-of-place x
    ordinary / per-frequency z0 x 2x2 and NxN shapes, followed by resize / convert histories) run
    through the extracted model and the library; the model's claim "cell = vnaconv_f(matrix, z0)[i]"
    is evaluated by calling vnaconv_f itself, so the comparison is bit exact.
-4. On a broken obligation or tie: search (all pairs, more histories), shrink, report.
+   Directed scripts aim at the case splits of the proofs: destination smaller / larger than the
+   result, holding old contents and per-frequency impedances; sources without frequencies or
+   without ports in per-frequency mode; the source is digested after every out-of-place call.
+4. Twin test of the clause "in-place conversion equals conversion into a second object" on the
+   implementation alone: the same source is converted into itself and into a second object that
+   holds something else; the two digests (type, dimensions, frequencies, cells, z0 mode and
+   values, save options) must be equal.
+5. On a broken obligation or tie: search (all pairs, more histories), shrink, report.
 """
 import os
 
@@ -19,9 +29,64 @@ import datagen
 import convtable
 import C15 as c15
 
+SRC22 = ["0 init 1 2 2 2", "0 setmat 0 4 1,1 2,0 0,3 1,-1", "0 setmat 1 4 2,1 1,0 1,3 0,-1", "0 setfv 2 10 20",
+         "0 setz0v 2 50,0 75,1", "0 setfz0v 1 2 60,0 85,-2", "0 setfmt 2", "0 setfprec 9"]
+BIGDST = ["1 init 4 3 3 3", "1 setmat 0 9 9,1 9,2 9,3 9,4 9,5 9,6 9,7 9,8 9,9", "1 setmat 1 9 8,1 8,2 8,3 8,4 8,5 8,6 8,7 8,8 8,9",
+          "1 setmat 2 9 7,1 7,2 7,3 7,4 7,5 7,6 7,7 7,8 7,9", "1 setfv 3 1 2 3", "1 setfz0v 2 3 11,0 12,0 13,0", "1 setft 2"]
+LOOK1 = ["1 meta", "1 getfv", "1 getmat 0", "1 getmat 1", "1 hasfz0", "1 getfz0v 0", "1 getfz0v 1", "0 meta",
+         "1 resize 4 3 3 3", "1 getmat 0", "1 getmat 2", "1 getfz0v 2", "1 getfv"]
+
 DIRECTED = {
     "empty_matrix_to_zin": ["0 init 1 0 0 1", "conv 0 1 10"],
+    # the concrete objects of coq/Data/ConvertExamples.v (ex_src, ex_dst)
+    "example_sz_outofplace": SRC22 + BIGDST + ["conv 0 1 4"] + LOOK1,
+    "example_zin_outofplace": SRC22 + BIGDST + ["conv 0 1 10"] + LOOK1,
+    "example_copy_outofplace": SRC22 + BIGDST + ["conv 0 1 1"] + LOOK1,
+    "example_sz_inplace": SRC22 + ["conv 0 0 4", "0 meta", "0 getmat 1", "0 getfz0v 1", "0 resize 4 3 3 3", "0 getmat 1"],
+    "example_zin_inplace": SRC22 + ["conv 0 0 10", "0 meta", "0 getmat 1", "0 getfz0v 1", "0 resize 0 2 2 2", "0 getmat 0",
+                                    "0 getmat 1"],
+    "example_copy_inplace": SRC22 + ["conv 0 0 1", "0 meta", "0 getmat 1"],
+    # destination smaller than the result in every direction
+    "small_destination": SRC22 + ["1 init 10 1 1 1", "1 setmat 0 1 7,7", "1 setfz0 0 0 3,3", "conv 0 1 5"] + LOOK1[:8],
+    # per-frequency mode without frequencies / without ports (setup_perf, copyz of the proof)
+    "perf_without_frequencies": ["0 init 1 2 2 1", "0 setfz0v 0 2 60,0 85,0", "0 resize 1 2 2 0", "0 hasfz0", "conv 0 1 4", "1 hasfz0",
+                                 "1 resize 4 2 2 1", "1 getfz0v 0", "1 getz0v", "conv 0 0 4", "0 hasfz0", "0 resize 4 2 2 1",
+                                 "0 getfz0v 0", "0 getz0v"],
+    "perf_without_ports_to_zin": ["0 init 1 0 0 2", "0 setfz0v 1 0", "0 hasfz0", "conv 0 1 10", "1 meta", "1 hasfz0", "1 getfz0v 1",
+                                  "conv 0 0 10", "0 hasfz0", "0 getfz0v 1", "0 resize 10 1 2 2", "0 getfz0v 1"],
+    "ordinary_without_frequencies": ["0 init 5 3 3 0", "0 setz0v 3 1,0 2,0 3,0", "1 init 1 2 2 2", "1 setfz0 1 1 9,9", "conv 0 1 1",
+                                     "1 hasfz0", "1 getz0v", "1 resize 1 3 3 1", "1 getfz0v 0"],
+    # refused conversions leave a used destination and the source as they are
+    "refused_keeps_destination": SRC22 + BIGDST + ["conv 0 1 11", "1 meta", "conv 0 1 -1", "1 getmat 2", "conv 0 1 0", "1 getfz0v 2",
+                                                   "0 settype 0", "0 resize 0 2 3 2", "conv 0 1 4", "1 getmat 1", "0 meta",
+                                                   "conv 1 0 2", "0 meta", "1 meta"],
 }
+
+
+def dest_setup(rng, inplace):
+    """what object 1 holds before the conversion: nothing, bare dimensions (smaller or larger than
+    the result), or a used object (old contents, frequencies, per-frequency impedances, options)"""
+    k = rng.random()
+    if inplace or k < 0.2:
+        return ["1 resize 0 %d %d %d" % (rng.randint(0, 3), rng.randint(0, 3), rng.randint(0, 4))]
+    if k < 0.4:
+        return ["1 dims"]
+    n = rng.choice((1, 2, 3, 4, 5))
+    f = rng.randint(1, 4)
+    ops = ["1 init %d %d %d %d" % (rng.choice((1, 4, 5)), n, n, f)]
+    for fi in range(f):
+        ops.append("1 setmat %d %s" % (fi, datagen.vlist(rng, n * n, datagen.val)))
+    ops.append("1 setfv %s" % datagen.vlist(rng, f, lambda g: str(g.randint(1, 9))))
+    if rng.random() < 0.7:
+        ops.append("1 setfz0v %d %s" % (rng.randrange(f), datagen.vlist(rng, n, datagen.zval)))
+    else:
+        ops.append("1 setz0v %s" % datagen.vlist(rng, n, datagen.zval))
+    if rng.random() < 0.5:
+        ops.append("1 setft %d" % rng.randint(0, 3))
+        ops.append("1 setfmt %d" % rng.randint(0, 5))
+    if rng.random() < 0.3:
+        ops.append("1 resize 0 %d %d %d" % (rng.randint(0, 2), rng.randint(0, 2), rng.randint(0, 2)))   # allocation larger than the logical box
+    return ops
 
 
 def pair_scripts(rng, quick):
@@ -43,8 +108,7 @@ def pair_scripts(rng, quick):
                     for n in shapes:
                         f = rng.randint(1, 3)
                         r = 1 if frm == 10 else n
-                        ops = ["1 init %d %d %d %d" % (rng.choice((0, 1, 4)), rng.randint(0, 3), 0, 0)]
-                        ops[0] = "1 resize 0 %d %d %d" % (rng.randint(0, 3), rng.randint(0, 3), rng.randint(0, 4))
+                        ops = dest_setup(rng, inplace)
                         ops.append("0 init %d %d %d %d" % (frm, r, n, f))
                         for fi in range(f):
                             ops.append("0 setmat %d %s" % (fi, datagen.vlist(rng, r * n, datagen.val)))
@@ -61,6 +125,8 @@ def pair_scripts(rng, quick):
                         dst = 0 if inplace else 1
                         ops.append("conv 0 %d %d" % (dst, to))
                         ops.append("%d meta" % dst)
+                        if not inplace:
+                            ops.append("0 meta")          # digest of the source after the call
                         # later history: chain another conversion, regrow, look
                         ops.append("conv %d %d %d" % (dst, rng.randint(0, 1), rng.randint(0, 10)))
                         ops.append("%d resize 0 %d %d %d" % (dst, rng.randint(0, 4), rng.randint(0, 4), f + rng.randint(0, 1)))
@@ -68,6 +134,112 @@ def pair_scripts(rng, quick):
                         ops.append("%d getfz0v 0" % dst)
                         out.append(ops)
     return out
+
+
+def twin_scripts(rng, count):
+    """(ops of the in-place run, ops of the out-of-place run, from, to): the same source converted
+    into itself and into a second object that holds something else"""
+    out = []
+    matrix = (1, 2, 3, 4, 5, 6, 7, 8, 9)
+    for i in range(count):
+        frm = rng.choice(matrix + (0, 10))
+        to = frm if frm in (0, 10) or rng.random() < 0.1 else rng.choice(matrix + (10,))
+        k = rng.random()
+        if k < 0.05:
+            to = rng.choice((-1, 11, 0))                   # refused: invalid code / matrix to undefined
+        if frm in datagen.SQUARE:
+            n = rng.choice((0, 1, 2, 2, 3, 4)) if to in datagen.SQUARE + (10,) or k > 0.95 else 2    # k > 0.95: wrong dimensions
+        elif frm in datagen.TWO_PORT:
+            n = 2
+        else:
+            n = rng.randint(0, 3)
+        r = 1 if frm == 10 else n
+        f = rng.choice((0, 1, 2, 3))
+        src = ["0 init %d %d %d %d" % (frm, r, n, max(f, 1))]
+        for fi in range(max(f, 1)):
+            src.append("0 setmat %d %s" % (fi, datagen.vlist(rng, r * n, datagen.val)))
+        src.append("0 setfv %s" % datagen.vlist(rng, max(f, 1), lambda g: str(g.randint(1, 9))))
+        src.append("0 setz0v %s" % datagen.vlist(rng, max(r, n), datagen.zval))
+        if rng.random() < 0.6:
+            for fi in range(max(f, 1)):
+                if fi == 0 or rng.random() < 0.6:
+                    src.append("0 setfz0v %d %s" % (fi, datagen.vlist(rng, max(r, n), datagen.zval)))
+        if f == 0:
+            src.append("0 resize %d %d %d 0" % (frm, r, n))
+        if rng.random() < 0.4:
+            src += ["0 setfmt %d" % rng.randint(0, 5), "0 setfprec %d" % rng.randint(1, 9), "0 setft %d" % rng.randint(0, 3)]
+        src.append("0 meta")
+        out.append((src + ["conv 0 0 %d" % to], src + dest_setup(rng, False) + ["conv 0 1 %d" % to], frm, to))
+    return out
+
+
+def digest_fields(tokens):
+    """D <i> t <ty> <r> <c> <f> A <pa> <fa> <ma> J <junk> F .. M .. Z <perf> .. X ..  ->  comparable sections"""
+    pos = dict((k, tokens.index(k)) for k in ("t", "A", "J", "F", "M", "Z", "X"))
+    return {"dims": tokens[pos["t"]:pos["A"]], "junk": tokens[pos["J"]:pos["F"]], "frequencies": tokens[pos["F"]:pos["M"]],
+            "cells": tokens[pos["M"]:pos["Z"]], "z0mode": tokens[pos["Z"]:pos["Z"] + 2], "z0": tokens[pos["Z"] + 2:pos["X"]],
+            "options": tokens[pos["X"]:]}
+
+
+def twin_check(ctx, runner, count):
+    """The clause `in-place conversion equals conversion into a second object`, on the
+    implementation alone (bit-exact: both runs call the same vnaconv function on the same doubles)."""
+    tw = twin_scripts(ctx.rng, count)
+    ops = []
+    where = []
+    for a, b, frm, to in tw:
+        ia = len(ops) + 1 + len(a) - 1
+        ops += ["reset"] + a
+        ib = len(ops) + 1 + len(b) - 1
+        ops += ["reset"] + b
+        where.append((ia, ib))
+    rc, out, err = runner.impl("\n".join(ops) + "\n")
+    lines = [l.split() for l in out.strip().split("\n")] if out.strip() else []
+    if rc != 0 or len(lines) != 2 * len(ops):
+        # a crash here is found (and shrunk) by the correspondence on the same kind of scripts
+        ctx.obligation("tie:in-place == out-of-place (implementation)", False, "harness failed: rc %d, %d lines for %d ops" % (rc, len(lines), len(ops)))
+        ctx.unproved("tie:in-place == out-of-place (implementation)", "the harness did not complete the twin scripts: " + err[-300:],
+                     "%d twin scripts" % len(tw))
+        return
+    nbad = 0
+    ncmp = 0
+    seen = set()
+    for (a, b, frm, to), (ia, ib) in zip(tw, where):
+        ra, da, rb, db = lines[2 * ia], lines[2 * ia + 1], lines[2 * ib], lines[2 * ib + 1]
+        ctx.count(("twin", frm, to, tuple(da[2:7]), ra[1]))
+        ctx.traces_validated += 1
+        diff = None
+        if ra != rb:
+            diff = "outcome"
+        elif ra[1] == "ok":
+            ncmp += 1
+            fa, fb = digest_fields(da), digest_fields(db)
+            for k in ("dims", "junk", "frequencies", "cells", "z0mode", "z0", "options"):
+                if fa[k] != fb[k]:
+                    diff = k
+                    break
+        if diff is None:
+            continue
+        # the source as the implementation itself shows it just before the call (`0 meta`)
+        sd = digest_fields(lines[2 * (ia - 1) + 1])
+        src_perf = sd["z0mode"][1] == "1"
+        nofreq = sd["dims"][4] == "0"
+        noports = sd["dims"][2] == "0" and sd["dims"][3] == "0" and to == 10
+        source = "per_frequency_z0_without_frequencies_or_ports" if src_perf and (nofreq or noports) else "other"
+        sig = {"kind": "inplace_vs_outofplace", "differs": diff, "source": source}
+        key = (diff, source)
+        if key in seen:
+            continue
+        seen.add(key)
+        nbad += 1
+        ctx.violation(sig, "vnadata_convert %d -> %d of the same source in place and into a second object: %s differ%s"
+                      % (frm, to, diff, " (source in per-frequency z0 mode without frequencies / ports)" if source != "other" else ""),
+                      {"in_place_script": a, "out_of_place_script": b, "in_place": " ".join(ra + da), "out_of_place": " ".join(rb + db),
+                       "how": "harness data_harness run < script (twice); compare the digests after the conv line"})
+    ctx.extra["twin_conversions_compared"] = ncmp
+    new = [v for v in c15.unknown_violations(ctx) if v.sig.get("kind") == "inplace_vs_outofplace"]
+    ctx.obligation("tie:in-place == out-of-place (implementation)", not new, "%d differing twins" % len(new))
+    ctx.log("%d twin conversions (%d accepted and compared field by field): %d classes of difference" % (len(tw), ncmp, nbad))
 
 
 def run(ctx):
@@ -78,6 +250,8 @@ def run(ctx):
         "translator translate/convtable.py (C initialisers -> Gallina table), validated exhaustively against the compiled table on every run",
         "hand-written coq/Data/ConvertModel.v (conv_spec, convert) tied by op-script correspondence; the vnaconv functions are abstract here (C04)",
         "extraction + ocaml/drv_data.ml, harness/data_harness.c, harness/convtable_harness.c, gcc ASan/UBSan/LSan",
+        "lib/datalib.py: a probe script on the compiled library selects which of the two model variants (finding DD2 present / repaired, "
+        "ConvertModel.dd2_fixed) the correspondence uses; every theorem is proved for both",
     ]
     ctx.assumptions = ["what each vnaconv function computes is property C04; here a conversion result is the symbolic application of the named function",
                        "in-place and out-of-place calls of one vnaconv function on equal inputs give bit-identical doubles (checked by the correspondence)"]
@@ -93,10 +267,12 @@ def run(ctx):
     except (convtable.TranslateError, KeyError, ValueError) as e:
         ctx.obligation("T2:translate", False, str(e))
         ctx.log("T2: source no longer matches the accepted idiom:", e)
-    ok, res = ctx.coq_obligations(["Gen/ConvTableGen.v", "Data/ConvertProofs.v", "Properties_C05.v"])
+    ok, res = ctx.coq_obligations(["Gen/ConvTableGen.v", "Data/ConvertProofs.v", "Data/ConvertRefine.v", "Data/ConvertTheorems.v",
+                                    "Data/ConvertExamples.v", "Properties_C05.v"])
 
     # ------------------------------------------------------------------ 2. validate T2
     runner = datalib.Runner(ctx)
+    ctx.log("finding DD2 (mode lost out of place without frequencies): %s" % ("repaired in the code" if runner.dd2_fixed else "present in the code"))
     exe = ctx.build_harness("convtable_harness", san=True, extra=["-I" + ctx.tmp], exclude=("vnadata_convert.c",))
     rc, out, err = vplib.sh([exe], timeout=60, env=ctx.run_env())
     compiled = {}
@@ -124,6 +300,9 @@ def run(ctx):
             break
     ctx.log("%d conversion scripts: %d differ" % (len(seqs), nbad))
     ctx.sample({"conversion_script": seqs[len(seqs) // 2]})
+    # ------------------------------------------------------------------ 4. in place == out of place
+    twin_check(ctx, runner, 300 if quick else 4000)
+
     # accounting
     ops = []
     for s in seqs:
@@ -138,7 +317,7 @@ def run(ctx):
             ctx.count((ops[k], r[1], d[3], d[4], d[5], d[6], d[d.index("Z") + 1]))
     ctx.extra["vnaconv_calls_resolved"] = ndef
     ctx.extra.pop("_seen", None)
-    new = c15.unknown_violations(ctx)
+    new = [v for v in c15.unknown_violations(ctx) if v.sig.get("kind") != "inplace_vs_outofplace"]
     ctx.obligation("tie:convert_model_vs_implementation", not new, "%d differing scripts" % len(new))
     if (not ok or not t2ok) and not new:
         ctx.unproved("Properties_C05", "Coq build / table validation failed: " +
